@@ -561,6 +561,7 @@ pub fn step(w: &mut Option<World>, line: &str) -> (String, String) {
                 .collect();
             let hot_ids: Vec<u64> = w.ids.iter().copied().filter(|&id| hot.exists(id)).collect();
             let r = w.engine.knn_search_with_ef_detailed_scoped(&q0, k, ef, scope);
+            let cachehit = matches!(&r, Ok((_, p)) if format!("{:?}", p) == "CacheHit");
             let out = match r {
                 Ok((res, path)) => format!(
                     "ok path={:?} res={}",
@@ -578,12 +579,13 @@ pub fn step(w: &mut Option<World>, line: &str) -> (String, String) {
             };
             (
                 format!(
-                    "knn q={} qn={} k={} ef={} scope={} hot={} cold={} hotset={}",
+                    "knn q={} qn={} k={} ef={} scope={} cachehit={} hot={} cold={} hotset={}",
                     show_vec(&q0),
                     show_vec(&q),
                     k,
                     ef.map(|e| e.to_string()).unwrap_or_else(|| "-".into()),
                     scope,
+                    cachehit as u8,
                     if hot_ann.is_empty() { "-".to_string() } else { hot_ann.join(",") },
                     if cold_ann.is_empty() { "-".to_string() } else { cold_ann.join(",") },
                     show_nat_list(&hot_ids)
